@@ -85,6 +85,13 @@ func (g *gram) upperName(prefix string) string {
 			parts = append(parts, string(b))
 		}
 		nm := prefix + strings.Join(parts, "_")
+		if g.r.Intn(12) == 0 {
+			// names ending with a word the Go tool reserves in file names are valid MAVLink names too
+			nm += "_" + []string{"TEST", "JS", "LINUX", "ARM64", "WINDOWS", "WASM", "386"}[g.r.Intn(7)]
+			if g.r.Intn(3) == 0 {
+				nm = prefix + []string{"TEST", "JS", "LINUX"}[g.r.Intn(3)]
+			}
+		}
 		if !g.names[nm] {
 			g.names[nm] = true
 			return nm
